@@ -315,6 +315,27 @@ def run_one(net, prefix, op, dev, F_cache, res):
             stubs = [i for i in reach if not sd.node_data(i)["expanded"]]
             if stubs:
                 out.append(("true-return-but-stub-reachable", f"{op}: stubs {stubs}"))
+        if ret is True and op[0] == "target":
+            # target-directed expansion: True means every node that is reachable through expanded nodes, intersects the
+            # target and is not strictly inside it has been expanded
+            from ..refmodel import consistent
+            tgt = dict(op[1])
+            seen, todo = {0}, [0]
+            while todo:
+                x = todo.pop()
+                sp = sd.node_data(x)["space"]
+                relevant = consistent(sp, tgt) and not (sub(sp, tgt) and sp != tgt)
+                if not sd.node_data(x)["expanded"]:
+                    if relevant:
+                        out.append(("true-return-but-relevant-stub", f"{op}: node {x} {sp} intersects the target, is not inside it, and is unexpanded"))
+                        break
+                    continue
+                if not relevant:
+                    continue
+                for y in sd.dag.successors(x):
+                    if y not in seen:
+                        seen.add(y)
+                        todo.append(y)
         if ret is True and op[0] == "min" and op[3] and op[2] is None:
             # minimal-space expansion with skip_ignored and no size limit: every node it leaves unexpanded is skipped
             import networkx as nx
